@@ -6,10 +6,11 @@ from .common import Run, corpus_cases, generic_replay, parse_list
 from .c03 import parse_def
 
 PROP = "C15"
-MODULE = "PLS.Props.C15"
+MODULE = "PLS.Props.C15W"     # imports PLS.Props.C15
 THEOREMS = ["PLS.C15_ascii_prefix_cols", "PLS.C15_non_ascii_cols_differ", "PLS.C15_definition_target",
             "PLS.C15_implementation_target", "PLS.C15_symbol_selection", "PLS.C15_selection_outside_range_before",
-            "PLS.C15_param_range_wellformed", "PLS.C15_string_usage_span", "PLS.C15_oneline_literal_span"]
+            "PLS.C15_param_range_wellformed", "PLS.C15_string_usage_span", "PLS.C15_oneline_literal_span",
+            "PLS.wordOccAux_whole_word", "PLS.C15_string_name_is_whole_word"]
 RULE = ("generated programs (proggen: tabs, CRLF, non-ASCII identifiers and text before tokens, six string-literal "
         "forms, multi-line and annotated signatures, positional-only / keyword-only parameters): (A) every recorded "
         "definition / usage / undeclared span is compared token by token with CPython tokenize + ast positions, "
